@@ -173,7 +173,7 @@ Spec == Init /\ [][Next]_vars /\ WF_vars(Internal)
 (* What subscriber s has handed out or still holds for its reader, in order. *)
 Stream(s) == delivered[s] \o buf[s]
 Drop(k, q) == SubSeq(q, k + 1, Len(q))
-NoDup(q) == \A i, j \in 1..Len(q) : q[i] = q[j] => i = j
+NoDup(q) == Cardinality(Range(q)) = Len(q)
 PosOf(e) == CHOOSE i \in 1..Len(published) : published[i] = e
 
 (* C15 for a subscriber of the bus: the events of its stream that were published after its     *)
@@ -181,8 +181,9 @@ PosOf(e) == CHOOSE i \in 1..Len(published) : published[i] = e
 (* publication order, none skipped), and no event occurs twice.  The statement does not speak   *)
 (* about events published before the subscription, so they are filtered out here rather than    *)
 (* forbidden (the model never delivers any: see PositionalLemma).                               *)
-AfterSubOf(q, s) == SelectSeq(q, LAMBDA e : e \in Range(published) /\ PosOf(e) > start[s])
-SubscriberOKOn(q, s) == /\ \A i \in 1..Len(q) : q[i] \in Range(published)
+(* (published has no duplicates, so "published at a position > start[s]" is "occurs in Owed(s)") *)
+AfterSubOf(q, s) == LET owedSet == Range(Owed(s)) IN SelectSeq(q, LAMBDA e : e \in owedSet)
+SubscriberOKOn(q, s) == /\ Range(q) \subseteq Range(published)
                         /\ NoDup(q)
                         /\ IsPrefix(AfterSubOf(q, s), Owed(s))
 AfterSub(s) == AfterSubOf(Stream(s), s)
